@@ -27,6 +27,14 @@ def is_object(v):
     return isinstance(v, dict) and any(k in v for k in ('__auto__', '__inst__', '__user__'))
 
 
+def has_object(v):
+    if isinstance(v, list):
+        return any(has_object(x) for x in v)
+    if isinstance(v, dict):
+        return is_object(v) or any(has_object(x) for x in v.values())
+    return False
+
+
 def shown(v):
     return v['__reprstr__'][0] if isinstance(v, dict) and '__reprstr__' in v else v
 
@@ -42,7 +50,12 @@ def value_text(v):
         k = ', '.join(f'{n}={value_text(x)}' for n, x in v['kwargs'].items())
         return f"tcv_dyn_objects.{v['__inst__']}({a}{', ' if a and k else ''}{k})"
     if isinstance(v, dict) and '__auto__' in v:
-        raise NotImplementedError('auto objects are rendered by the registry suite only')
+        # Class(name=repr(value), ...) over the arguments the class persists, sorted by name; repr() is Python's
+        from .values import filtered_auto_args, materialize
+        args = filtered_auto_args(v)
+        if any(has_object(x) for x in args.values()):
+            raise NotImplementedError('objects inside object arguments')
+        return v['__auto__'] + '(' + ', '.join(f'{k}={materialize(args[k])!r}' for k in sorted(args)) + ')'
     if isinstance(v, list):
         return '[' + ', '.join(value_text(x) for x in v) + ']'
     if isinstance(v, dict):
